@@ -333,7 +333,7 @@ def run_generated(case):
     n = 0
     samples = []
     hist = []       # every line decoded so far in this process (a witness is replayed after its two predecessors)
-    tricky = [', ', '(', ')', '[', ' -> ', '}', '  -> a#1.b(', '] a@1.b(', 'nil', 'new id ', '', '{x} <1>', ', "', '[0.1]  -> b@2.c(', '#', '@', 'bug #12 @home', ' <7> ', '<conn> ', ' {q} ']
+    tricky = ['caf\u00e9 \u2014 \u20ac \u65e5\u672c', ', ', '(', ')', '[', ' -> ', '}', '  -> a#1.b(', '] a@1.b(', 'nil', 'new id ', '', '{x} <1>', ', "', '[0.1]  -> b@2.c(', '#', '@', 'bug #12 @home', ' <7> ', '<conn> ', ' {q} ']
     tricky = [t for t in tricky if '"' not in t or True]
     def strprod(i):
         t = tricky[i % len(tricky)].replace('"', "'")
@@ -681,6 +681,10 @@ STREAM_LINES = [
     # one argument more / a message the shipped description of a known interface does not have (a newer protocol revision)
     ('[1000.800] wl_display@1.error(wl_display@1, 2, "x", 4)', (None, False, 'wl_display', 1, 'error', 4)),
     ('[1000.900]  -> wl_display@1.sync2(7, nil)', (None, True, 'wl_display', 1, 'sync2', 2)),
+    # string payloads outside ASCII (titles, app ids, clipboard text): the value is the text between the quotes, character for character
+    ('[1001.000]  -> zz_iface@7.set_title("caf\u00e9 \u2014 \u20ac5, \u65e5\u672c\u8a9e \u0416")', (None, True, 'zz_iface', 7, 'set_title', 1, ['caf\u00e9 \u2014 \u20ac5, \u65e5\u672c\u8a9e \u0416'])),
+    # a printed line is longer than the message on the wire (tags, names, quotes): no length a reader may assume bounds it
+    ('[1001.100] {Default Queue} <conn7>  -> zz_iface#7.set_surrounding_text("' + 'lorem, ipsum (dolor) ' * 330 + '", 3, 4)', ('conn7', True, 'zz_iface', 7, 'set_surrounding_text', 3, ['lorem, ipsum (dolor) ' * 330])),
 ]
 
 
@@ -718,15 +722,23 @@ def stream_lines(ctx, case):
         def __init__(self):
             self.i = 0
         def readline(self, size=-1):
-            self.i += 1
-            return STREAM_LINES[idx[self.i - 1]][0] + chr(10) if self.i <= n else ''
+            # io.TextIOBase.readline: at most `size` characters when a size is given; the rest of the line is what the next call returns
+            if not getattr(self, 'rest', ''):
+                self.i += 1
+                self.rest = STREAM_LINES[idx[self.i - 1]][0] + chr(10) if self.i <= n else ''
+            k = len(self.rest) if size is None or size < 0 else size
+            piece, self.rest = self.rest[:k], self.rest[k:]
+            return piece
     out, err = RecStream(), RecStream()
     parse.into_sink(F(), Output(False, True, out, err), Sink())
     want = [STREAM_LINES[i][1] for i in idx if STREAM_LINES[i][1] is not None]
     ctx.check('as many messages reported as there are message lines (none invented, none swallowed)', len(got) == len(want))
     for (cid, m), w in zip(got, want):
         ctx.check('each message line decodes to the message it denotes, whatever the line before it was',
-                  (m.sent, m.obj.type, m.obj.id, m.name, len(m.args)) == w[1:] and cid == (w[0] or 'PARSED'))
+                  (m.sent, m.obj.type, m.obj.id, m.name, len(m.args)) == w[1:6] and cid == (w[0] or 'PARSED'))
+        if len(w) > 6:
+            ctx.check('string arguments carry the text between the quotes, character for character (non-ASCII text, very long text)',
+                      [a.value for a in m.args if isinstance(a, wl.Arg.String)] == w[6])
     ctx.check('every line that is no message is passed through, once', len([x for x in out.items if x.lstrip().startswith('|')]) == n - len(want))
     ctx.check('no error output', err.items == [])
 
@@ -757,7 +769,7 @@ def obligations(tier):
            splitter, cases=_splitter_shapes(tier), stubs=['the argument text is an SWord (list of symbolic code points)']),
         Ob('line-by-line', 'symx', 'streams through the real line loop: each printer line decodes to what it denotes whatever preceded it (cut-off lines, chatter with an open quote); non-messages are never reported as messages',
            FUNCS_GLUE[:1] + ['backends.libwayland_debug_output.parse:Parser.parse_all', 'backends.libwayland_debug_output.parse:Parser.handle_message'],
-           'all streams of <= %d lines from a pool of %d (3 of them cut off inside a string / an argument list)' % (3 if tier == 'quick' else 4, len(STREAM_LINES)), stream_lines, cases=[1, 2, 3] if tier == 'quick' else [1, 2, 3, 4]),
+           'all streams of <= %d lines from a pool of %d (3 of them cut off inside a string / an argument list, one with non-ASCII text, one of 7 000 characters)' % (3 if tier == 'quick' else 4, len(STREAM_LINES)), stream_lines, cases=[1, 2, 3] if tier == 'quick' else [1, 2, 3, 4]),
         Ob('generated-lines', 'smt', 'solver-generated printer lines (every ordered pair of argument productions, tricky string payloads) decoded end to end by the real parse.message vs the reference decoder',
            FUNCS_GLUE, 'one or two arguments per line; all productions; 5 variants x 2 directions', run_generated, cases=G.variants() if tier != 'quick' else G.variants()[:1] + G.variants()[4:],
            replay=replay_line),
